@@ -9,6 +9,8 @@ Byte strings travel as `x<hex>` (`x` alone = empty), an absent attribute as `non
   `variant <colsFromEnd> <rawActions> <poolReset>`   -> `ok`        which repairs the engine under test has (0/1 each)
   `fmtv <16 hex bits>`                               -> `x<hex>`    `fmt.Sprintf("%v", float64)`
   `scenario <nActions> <k> (<name> <16 hex bits>)*k` -> `ok`        a FRESH engine with this scenario posted
+  `rescenario <nActions> <k> (<name> <16 hex bits>)*k` -> `ok`      the scenario POSTed to the SAME engine (new model, new pool,
+                                                                    the summary table stays: `Crem.EngineSummary.doScenario`)
   `summary <k> <name>*k <r> (<label> <value>*k <encoding> <note>)*r`
         -> `HYP wellFormed <true|false> x<rendered text> lay=<0|1> rb=<0|1>`
            the summary the real marshaler rendered from these rows (compared byte for byte), the
@@ -19,6 +21,7 @@ Byte strings travel as `x<hex>` (`x` alone = empty), an absent attribute as `non
   `posttext x<hex>`                                  -> the same, for an arbitrary body
   `get <label>`      -> `notfound` | `panic` | `found e=<Encoding attribute> n=<Summary attribute> p=<ParetoFrontMember attribute> f=<active flags|panic>`
   `patch <encoding>` -> `rejected` | `member=<0|1|none>`     PATCH /model, then the ParetoFrontMember attribute of GET /model
+  `params …`         -> `ok`        Scenario.Name / model parameters of the scenario posted next (harness side only)
   `dataset …`        -> `ok`        start of a case (tells the harness which data set to load; nothing for the model)
   `layout x<text>`   -> `splittable`  emitted only when the harness could NOT split a summary crem wrote into `, `-separated
                                     rows under a `Solution, …, Actions, Summary` header (it then answers `unsplittable`)
@@ -27,19 +30,11 @@ Byte strings travel as `x<hex>` (`x` alone = empty), an absent attribute as `non
 namespace Driver.EngineSummary
 open Crem.Csv Crem.EngineSummary
 
-structure Cached where
-  enc : Bytes
-  note : Option Bytes
-  /-- the `ParetoFrontMember` attribute of the pooled solution: `AddSolution` sets it, the As-Is entry has it false -/
-  member : Bool
-  flags : Option (List Bool)
-
+/-- the engine state is the MODEL's (`Crem.EngineSummary.Engine`, `step`); the driver only adds the variant under
+test and the text the next `post` sends -/
 structure St where
   v : Variant := .current
-  sc : Scenario := { nActions := 0, vars := [] }
-  table : Option Table := none
-  pool : List (Bytes × Cached) := []
-  pfm : Option Bool := none
+  eng : Engine := { sc := { nActions := 0, vars := [] } }
   text : Bytes := []
 
 def hx (b : Bytes) : String := "x" ++ Driver.Csv.toHex b
@@ -109,53 +104,30 @@ def postStr : Post → String
   | .rejected .invalid => "rejected:invalid"
   | .rejected .notScenario => "rejected:notScenario"
 
-def doPost (st : St) (text : Bytes) : St × String :=
-  let r := loadSummary st.v st.sc text
-  match r with
-  | .ok t => ({ st with table := some t, pool := if st.v.poolReset then [] else st.pool }, postStr r)
-  | _ => (st, postStr r)
-
 def cachedStr (c : Cached) : String :=
   s!"found e={hx c.enc} n={match c.note with | some n => hx n | none => "none"} p={Driver.boolStr c.member} f={flagsStr c.flags}"
 
-def doGet (st : St) (label : Bytes) : St × String :=
-  match st.table with
-  | none => (st, "notfound")
-  | some t =>
-    if !routableLabel label || !containsLabel label t then (st, "notfound")
-    else if label == sAsIs then
-      -- the pool's own As-Is entry, built when the scenario was posted
-      (st, cachedStr { enc := ofChars (Crem.BoolArchive.encode (List.replicate st.sc.nActions false)), note := none, member := false,
-                       flags := some (List.replicate st.sc.nActions false) })
-    else
-      match st.pool.find? (fun p => p.1 == label) with
-      | some (_, c) => (st, cachedStr c)
-      | none =>
-        match findDetail st.v t label (if st.v.guards then t.cells else t.cells.tail) with
-        | .found e n =>
-          match poolActive st.sc.nActions e with
-          | none => (st, "panic")
-          | some f =>
-            let c : Cached := { enc := e, note := some n, member := true, flags := some f }
-            ({ st with pool := (label, c) :: st.pool }, cachedStr c)
-        | .panic _ => (st, "panic")
-        | _ => (st, "notfound")
+def respStr : Resp → String
+  | .ok => "ok"
+  | .panic => "panic"
+  | .rejected .csv => "rejected:csv"
+  | .rejected .invalid => "rejected:invalid"
+  | .rejected .notScenario => "rejected:notScenario"
+  | .notFound => "notfound"
+  | .found c => cachedStr c
+  | .patchRejected => "rejected"
+  | .member (some b) => "member=" ++ Driver.boolStr b
+  | .member none => "member=none"
 
-def doPatch (st : St) (enc : Bytes) : St × String :=
-  match st.table with
-  | none =>
-    match Crem.BoolArchive.decode st.sc.nActions (toChars enc) with
-    | .error _ => (st, "rejected")
-    | .ok _ => (st, "member=" ++ (match st.pfm with | some b => Driver.boolStr b | none => "none"))
-  | some t =>
-    match paretoMember st.sc t enc with
-    | none => (st, "rejected")
-    | some b => ({ st with pfm := some b }, "member=" ++ Driver.boolStr b)
+def doReq (st : St) (r : Req) : St × String :=
+  let (e, resp) := Crem.EngineSummary.step st.v st.eng r
+  ({ st with eng := e }, respStr resp)
 
 def step (st : St) (line : String) : St × String :=
   match Driver.words line with
-  | "dataset" :: _ => ({ st with table := none, pool := [], pfm := none, text := [] }, "ok")
+  | "dataset" :: _ => ({ st with eng := { sc := st.eng.sc }, text := [] }, "ok")
   | ["getvalid", _] => (st, "go-only")
+  | "params" :: _ => (st, "ok")
   | ["layout", _] => (st, "splittable")
   | ["variant", a, b, c] => ({ st with v := ⟨a == "1", b == "1", c == "1", false⟩ }, "ok")
   | ["variant", a, b, c, d] => ({ st with v := ⟨a == "1", b == "1", c == "1", d == "1"⟩ }, "ok")
@@ -167,7 +139,14 @@ def step (st : St) (line : String) : St × String :=
     match n.toNat?, k.toNat? with
     | some n, some k =>
       match parseScenarioVars k rest with
-      | some vars => ({ st with sc := { nActions := n, vars := vars }, table := none, pool := [], pfm := none, text := [] }, "ok")
+      | some vars => ({ st with eng := { sc := { nActions := n, vars := vars } }, text := [] }, "ok")
+      | none => (st, "bad-line")
+    | _, _ => (st, "bad-line")
+  | "rescenario" :: n :: k :: rest =>
+    match n.toNat?, k.toNat? with
+    | some n, some k =>
+      match parseScenarioVars k rest with
+      | some vars => doReq { st with text := [] } (.scenario { nActions := n, vars := vars })
       | none => (st, "bad-line")
     | _, _ => (st, "bad-line")
   | "summary" :: rest =>
@@ -175,7 +154,7 @@ def step (st : St) (line : String) : St × String :=
     | some (names, rows) =>
       let text := renderSummary names rows
       ({ st with text := text },
-        s!"HYP wellFormed {wellFormed st.sc names rows} {hx text} lay={Driver.boolStr (layoutOk st.v names)} rb={Driver.boolStr (encodingsReadBack st.v rows)}")
+        s!"HYP wellFormed {wellFormed st.eng.sc names rows} {hx text} lay={Driver.boolStr (layoutOk st.v names)} rb={Driver.boolStr (encodingsReadBack st.v rows)}")
     | none => (st, "bad-line")
   | "summaryx" :: rest =>
     match parseSummary rest with
@@ -184,18 +163,18 @@ def step (st : St) (line : String) : St × String :=
       ({ st with text := text },
         s!"{hx text} lay={Driver.boolStr (layoutOk st.v names)} rb={Driver.boolStr (encodingsReadBack st.v rows)}")
     | none => (st, "bad-line")
-  | ["post"] => doPost st st.text
+  | ["post"] => doReq st (.post st.text)
   | ["posttext", t] =>
     match unhx t with
-    | some text => doPost st text
+    | some text => doReq st (.post text)
     | none => (st, "bad-line")
   | ["get", l] =>
     match unhx l with
-    | some label => doGet st label
+    | some label => doReq st (.get label)
     | none => (st, "bad-line")
   | ["patch", e] =>
     match unhx e with
-    | some enc => doPatch st enc
+    | some enc => doReq st (.patch enc)
     | none => (st, "bad-line")
   | _ => (st, "bad-line")
 
